@@ -38,10 +38,12 @@ int main(void){
   int p2s = uk_choice(2, "plusToSpace"), br = uk_choice(4, "breakConversion"); long rn; const CH *e;
   CH *s; unsigned long cin[3 * MAXN], cexp[6 * MAXN + 1];
 #ifdef TOKENS
-  /* NMAX tokens, each a symbolic character or a %XY triplet with symbolic hex digits: reaches sequences like "%0D+%0A" */
+  /* NMAX tokens, each a symbolic character, a %XY triplet or a truncated pair %X with symbolic hex digits: reaches sequences like "%0D+%0A", "%0D%0%0A" */
   { CH tmp[3 * MAXN]; long k = 0, t, nt = n;
     for (t = 0; t < nt; t++){
-      if (uk_choice(2, "triplet")){ CH h1, h2; SYM_TEXT(&h1, 1, "x"); SYM_TEXT(&h2, 1, "x"); uk_assume(oe_ishex(CHV(h1)) && oe_ishex(CHV(h2))); tmp[k++] = '%'; tmp[k++] = h1; tmp[k++] = h2; }
+      int kind = uk_choice(3, "triplet");   /* 0: any character, 1: %XY, 2: truncated pair %X */
+      if (kind == 1){ CH h1, h2; SYM_TEXT(&h1, 1, "x"); SYM_TEXT(&h2, 1, "x"); uk_assume(oe_ishex(CHV(h1)) && oe_ishex(CHV(h2))); tmp[k++] = '%'; tmp[k++] = h1; tmp[k++] = h2; }
+      else if (kind == 2){ CH h1; SYM_TEXT(&h1, 1, "x"); uk_assume(oe_ishex(CHV(h1))); tmp[k++] = '%'; tmp[k++] = h1; }
       else { CH c; SYM_TEXT(&c, 1, "t"); tmp[k++] = c; } }
     n = k; s = uk_buf((size_t)(n + 1) * sizeof(CH), "inout"); for (i = 0; i < n; i++) s[i] = tmp[i]; }
 #else
